@@ -69,7 +69,7 @@ CHECKS.update({
 
 CHECKS.update({
  "C04": dict(technique="Coq proof (Coquelicot is_derive for every coordinate map, list induction for rows, induction over the stage list for the composite) about the transform definitions regenerated from transforms.py; numeric differential + finite differences on the implementation",
-  text="28 theorems about the regenerated periodic / logit / probit / affine definitions: round trips in both directions (outside the documented clip margin), reported forward log-Jacobian = sum of ln|f_i'(x_i)| with the derivative witnessed by is_derive, inverse log-Jacobian = - forward, wrap into [lower,upper) modulo the period with zero log-Jacobian, inverse image strictly inside the bounds, fit = forward; composite of any on/off combination by induction over stages, with the stage order read from the code. The differential evaluates the same IR in mpmath against numpy/torch/jax in both widths over bounds spanning 1e-8..1e8 and checks log-Jacobians by central finite differences.",
+  text="(Binary64: the half-open range of the periodic wrap is REFUTED on a PrimFloat model tied bit for bit to PeriodicTransform.forward - theorem C04_periodic_range_binary64_refuted, known finding.) 28 theorems about the regenerated periodic / logit / probit / affine definitions: round trips in both directions (outside the documented clip margin), reported forward log-Jacobian = sum of ln|f_i'(x_i)| with the derivative witnessed by is_derive, inverse log-Jacobian = - forward, wrap into [lower,upper) modulo the period with zero log-Jacobian, inverse image strictly inside the bounds, fit = forward; composite of any on/off combination by induction over stages, with the stage order read from the code. The differential evaluates the same IR in mpmath against numpy/torch/jax in both widths over bounds spanning 1e-8..1e8 and checks log-Jacobians by central finite differences.",
   note="Trusted: Coq kernel; Reals/Coquelicot axioms (sig_forall_dec, sig_not_dec, functional_extensionality_dep, classic); tools/translate.py; erf/erfinv enter the probit theorems as Section hypotheses (mutual inverses, derivative of erfinv) - scipy.special is trusted for them; ln|det| of a coordinatewise map is taken to be the sum of ln|f_i'|; binary rounding is outside the exact-real theorems (known finding F5 lives there); FlowPreconditioningTransform's learned map is not modelled.",
   ref="DESIGN.md section 5 C04"),
  "C19": dict(technique="Coq proof by structural induction over programs of a small language with exceptions modelling the two context managers; exhaustive-to-depth and random programs executed on a real Aspire instance and through the model (vm_compute)",
